@@ -124,6 +124,25 @@ def execute(case):
                     scans = [[[-7, -7, -7]] for _ in fs]
                 for info, sc in zip(infos, scans):
                     info["scan2"] = sc
+                    info["ins_coords"], info["ins_lookups"] = [], []
+                if d == depth - 1 and desc[d] == "C":
+                    # last of all (the fibers are changed by it): a coordinate is inserted in mid-list after every coordinate was looked up, and every
+                    # coordinate is looked up again - the lookups follow the list as it is now
+                    for f, info in zip(fs, infos):
+                        cs = ints(f.coords)
+                        free = [c for c in range(0, max(cs)) if c not in cs] if cs else []
+                        if not free or not hasattr(f, "insertElement"):
+                            continue
+                        try:
+                            f.insertElement(free[0])
+                            after = ints(f.coords)
+                            lk = []
+                            for q in range(0, shape[d] + 2):
+                                h = f.coordToHandle(q)
+                                lk.append([q, -1 if h is None else int(h)])
+                            info["ins_coords"], info["ins_lookups"] = after, lk
+                        except BaseException:  # noqa: B036 - insertion into an encoded fiber is outside what C20 states; only the lookups after a successful one are judged
+                            pass
                 out["fibers"] += infos
     except BaseException as ex:  # noqa: B036
         out["exc"] = "err:" + type(ex).__name__ + ":" + str(ex)[:80]
